@@ -99,7 +99,7 @@ def _(c):
     c.ensures('(not first) or (ext_trace()[old(len(ext_trace()))] == (10 if message.name != "get_registry" else (12 if message.sent else 11)) and '
               'ext_text()[old(len(ext_trace()))] == connection_id)', 'opened_first_with_role_from_get_registry_direction')
     c.ensures('ext_trace()[len(ext_trace()) - 1] == 3 and ext_text()[len(ext_trace()) - 1] == connection_id', 'forwarded_under_its_own_connection_id')
-    c.modifies('self.state._paused', 'dict(self.connections)', 'ext', 'trace', 'ui')
+    c.modifies('self.state._paused', 'dict(self.connections)', 'ext', 'trace', 'ui', 'counts')
     c.native_gen(_gen_process)
 
 
